@@ -55,15 +55,17 @@ fn ref_dependent(a: u8, b: u8) -> bool {
 }
 
 vharness! {
-    /// @prop C11,C01 @tier quick @mode full @funcs arc::State::last_dependent_access,arc::State::set_last_access,Access::set_or_create @bounds all 3x3 pairs of Arc actions, arbitrary earlier access records (path ids below the new one), all clock values
+    /// @prop C11,C01 @tier quick @mode full @funcs arc::State::last_dependent_access,arc::State::set_last_access,Access::set_or_create @bounds all 3x3 pairs of Arc actions, arbitrary earlier access records (path ids below the new one), reference count 1..6, all clock values
     /// dependence table of Arc operations: after recording an access `a`, the last dependent access reported for a following `b` is that access iff a and b do not commute (inspect/clone, inspect/drop, drop/drop); otherwise the answer is what it was before.
     fn arc_dependence_table() {
         let p: usize = kani::any();
         kani::assume(p >= 1 && p < 1000);
         let last_mod: u8 = kani::any();
         kani::assume(last_mod <= 2);
+        let cnt: usize = kani::any();
+        kani::assume(cnt >= 1 && cnt <= 6);
         let mut st = State {
-            ref_cnt: 2,
+            ref_cnt: cnt,
             allocated: Location::disabled(),
             synchronize: Synchronize::new(),
             last_ref_inc: any_access(p),
@@ -95,6 +97,7 @@ vharness! {
             assert!(same(after, before));
         }
         kani::cover!(a == 2 && b == 1, "inspection followed by a drop");
+        kani::cover!(a == 1 && b == 1 && cnt == 4, "drop followed by a drop with several handles alive");
         kani::cover!(a == 0 && b == 1 && before.is_some(), "clone followed by a drop: independent, older drop still reported");
     }
 }
